@@ -352,9 +352,10 @@ pub fn eval_long(c: &LongCase) -> CaseOut {
                 _ => bench.run(conn.disconnect_with(Disconnect::success().with_properties(&props)), id).map(|r| r.map_err(|e| Res::from_err(&e))).unwrap_or(Err(Res::Cancelled)),
             };
             let after = snapshot(&conn, &handles);
-            Some((r, before, after, bench.written(id)[wrote_before..].len()))
+            Some((r, before, after, bench.written(id)[wrote_before..].to_vec()))
         });
-        let Built::Ran(Some((r, before, after, sent))) = out else { panic!("machinery: setup failed") };
+        let Built::Ran(Some((r, before, after, written))) = out else { panic!("machinery: setup failed") };
+        let sent = written.len();
         let class;
         match (&r, w) {
             (Err(Res::InvalidRequest), Want::Accept) => {
@@ -366,7 +367,18 @@ pub fn eval_long(c: &LongCase) -> CaseOut {
                 class = 3;
                 flag(&mut viol, "illegal-property-accepted", &pname, format!("{} accepted property {:#04x} with a {}-byte value ({} bytes written)", ctxn, c.id, c.len, sent));
             }
-            (Ok(()), _) => class = 4,
+            (Ok(()), _) => {
+                class = 4;
+                // the longest legal value must arrive whole
+                let got = mr::decode_client(&written).ok().map(|(p, _)| match p {
+                    CPacket::Publish(pp) => pp.props,
+                    CPacket::Subscribe { props, .. } | CPacket::Unsubscribe { props, .. } | CPacket::Disconnect { props, .. } => props,
+                    _ => vec![],
+                });
+                if w == Want::Accept && !got.as_ref().is_some_and(|x| mr::props_equiv(x, &props_ref)) {
+                    flag(&mut viol, "property-not-sent", &pname, format!("{} accepted property {:#04x} with a {}-byte value but the wire carries {:?} properties in {} bytes", ctxn, c.id, c.len, got.map(|g| g.len()), sent));
+                }
+            }
             (Err(e), Want::Reject) => {
                 class = 5;
                 flag(&mut viol, "wrong-error", &pname, format!("{} with property {:#04x} carrying a {}-byte value (cannot be encoded; the 140000-byte transmit buffer would hold it) fails with {:?}, not with the invalid-request error", ctxn, c.id, c.len, e));
